@@ -23,6 +23,8 @@ SUMMARY;LANGUAGE=de:Grüße € 😀\\, done\; ok
 RRULE:FREQ=DAILY;COUNT=3
 EXDATE;TZID=Europe/Vienna:20200330T023000,20200331T023000
 CATEGORIES:a,b
+LOCATION:Room 4 
+COMMENT:Team  sync\t
 BEGIN:VALARM
 ACTION:DISPLAY
 TRIGGER;RELATED=END:-PT5M
@@ -100,7 +102,7 @@ def tree(c):
 
 
 def _lines(seed):
-    return [ln for ln in SEEDS[seed].split("\n") if ln]
+    return [ln for ln in SEEDS[seed].split("\n") if ln.strip()]
 
 
 def _recase(line, mode, what):
@@ -212,7 +214,7 @@ def h_fold(seed: int, fold_line: int, where: int, fold_ws: int, lf: bool, pytz_p
     character or an escape sequence), or before the last character.
 
     pre: 0 <= seed < len(SEEDS) and pinned("seed", seed)
-    pre: 0 <= fold_line < 24 and 0 <= where <= 2 and 0 <= fold_ws <= 1
+    pre: 0 <= fold_line < 26 and 0 <= where <= 2 and 0 <= fold_ws <= 1
     pre: pinned("fold_ws", fold_ws) and pinned("pytz_provider", pytz_provider) and pinned("where", where)
     post: _
     """
@@ -223,7 +225,7 @@ def h_fold(seed: int, fold_line: int, where: int, fold_ws: int, lf: bool, pytz_p
     try:
         ref_tree, ref_bytes = _reference(seed, pytz_provider)
         lines = _lines(seed)
-        k = _c(fold_line, 0, 23)
+        k = _c(fold_line, 0, 25)
         if k >= len(lines):
             return True
         n = len(lines[k])
